@@ -1,6 +1,6 @@
 SPECIFICATION Spec
 CONSTANTS Cids = {c1, c2}
-          MaxOps = 3
+          MaxOps = 4
           MaxRb = 1
           NProd = 2
           AsBuilt = {}
